@@ -1,32 +1,34 @@
 ----------------------------- MODULE Gen_PS38Pdu -----------------------------
 (* Case generator (spec -> code): every PDU of the instance space with the   *)
 (* bytes PduBytes prescribes; the oversize table (shape, n, Writable); the   *)
-(* strict-mode table with the outcome ReadPdu prescribes.                    *)
+(* strict-mode table with the outcomes ReadPdu prescribes.  The case is held *)
+(* in variable p of PS38PduInst, tagged with its table.                      *)
 EXTENDS PS38PduInst, PS38PduBig, Json, Integers
 
-CONSTANTS BigSizes, What     \* What \in {"pdus", "big", "strict"}
-
-(* the case is held in variable p of PS38PduInst *)
+CONSTANTS BigSizes,  \* sizes n of the large field in the oversize table
+          What       \* subset of {"pdus", "big", "strict"}
 
 Maxes == {1018, 16378}
 StrictCases == {[max |-> m, strict |-> s, plen |-> m + d] : m \in Maxes, s \in BOOLEAN, d \in {-1, 0, 1, 2, 1018}}
 StrictPdu(plen) == [k |-> "pdata", pdvs |-> <<[id |-> 1, cmd |-> FALSE, last |-> TRUE, data |-> Rep(plen - 6, 0)]>>]
 
-GInit == CASE What = "pdus"   -> p \in Instances
-           [] What = "big"    -> p \in {[shape |-> s, n |-> n] : s \in BigShapes, n \in BigSizes}
-           [] What = "strict" -> p \in StrictCases
+Tagged(w, S) == IF w \in What THEN {[w |-> w, v |-> x] : x \in S} ELSE {}
+GInit == p \in Tagged("pdus", Instances)
+               \cup Tagged("big", {[shape |-> s, n |-> n] : s \in BigShapes, n \in BigSizes})
+               \cup Tagged("strict", StrictCases)
 GSpec == GInit /\ [][UNCHANGED p]_p
 
 Emit ==
-  CASE What = "pdus" ->
-         PrintT(<<"CASE", ToJson([pdu |-> p, bytes |-> PduBytes(p)])>>)
-    [] What = "big" ->
-         PrintT(<<"CASE", ToJson([big |-> TRUE, shape |-> p.shape, n |-> p.n,
-                                  writable |-> Writable(BigPdu(p.shape, p.n))])>>)
-    [] What = "strict" ->
-         LET b == PduBytes(StrictPdu(p.plen)) IN
-         PrintT(<<"CASE", ToJson([strictcase |-> TRUE, max |-> p.max, strict |-> p.strict, plen |-> p.plen,
-                                  exp |-> [full  |-> ReadPduN(b, Len(b), p.max, p.strict).k,
-                                           hdr   |-> ReadPduN(b, 6, p.max, p.strict).k,
-                                           short |-> ReadPduN(b, Len(b) - 1, p.max, p.strict).k]])>>)
+  LET c == p.v IN
+  CASE p.w = "pdus" ->
+         PrintT(<<"CASE", ToJson([pdu |-> c, bytes |-> PduBytes(c)])>>)
+    [] p.w = "big" ->
+         PrintT(<<"CASE", ToJson([big |-> TRUE, shape |-> c.shape, n |-> c.n,
+                                  writable |-> Writable(BigPdu(c.shape, c.n))])>>)
+    [] p.w = "strict" ->
+         LET b == PduBytes(StrictPdu(c.plen)) IN
+         PrintT(<<"CASE", ToJson([strictcase |-> TRUE, max |-> c.max, strict |-> c.strict, plen |-> c.plen,
+                                  exp |-> [full  |-> ReadPduN(b, Len(b), c.max, c.strict).k,
+                                           hdr   |-> ReadPduN(b, 6, c.max, c.strict).k,
+                                           short |-> ReadPduN(b, Len(b) - 1, c.max, c.strict).k]])>>)
 =============================================================================
